@@ -32,6 +32,7 @@ def model_names(tier):
       "ens-rtl", "ens-rtl-kfl-outcalib",
       "stack-lattice", "stack-linear",
       "linear-cat-diamond", "lattice-cat-diamond", "ens-explicit-lincomb-minonly",
+      "ens-avg-bounds-free-lattice",
   ]
   if tier != "quick":
     base += ["lattice-convex-clamp", "lattice-trust-dominance", "lattice-learned-keypoints",
@@ -136,7 +137,14 @@ def build(name, seed=7):
   elif name.startswith("ens-"):
     kw = dict(feature_configs=feature_configs(tfl, sizes=(2, 2, 2, 2)), num_lattices=3, lattice_rank=2,
               output_initialization=[0.0, 1.0], random_seed=seed)
-    if name == "ens-explicit-avg":
+    if name == "ens-avg-bounds-free-lattice":
+      # one lattice sees only unconstrained features (categorical without ordering pairs): its
+      # kernel has no shape constraint at all, only the output bounds
+      lo, hi = 0.0, 1.0
+      pairs = []
+      kw.update(feature_configs=feature_configs(tfl, sizes=(2, 2, 2, 2), extra={"c": dict(monotonicity=None)}),
+                lattices=[["a", "b"], ["u", "c"], ["a", "c"]], output_min=lo, output_max=hi)
+    elif name == "ens-explicit-avg":
       kw.update(lattices=[["a", "b"], ["u", "c"], ["a", "c"]])
     elif name == "ens-explicit-lincomb-bounds":
       lo, hi = 0.0, 1.0
@@ -382,7 +390,7 @@ def work(ctx, name):
 def run(ctx):
   names = alpha.rotate(model_names(ctx.tier), ctx.seed)
   ctx.rule = (
-      "19 (thorough 25) real models: CalibratedLinear {plain, bounds, output calibration}, "
+      "20 (thorough 26) real models: CalibratedLinear {plain, bounds, output calibration}, "
       "CalibratedLattice {hypercube, simplex+bounds, output calibration, kronecker_factored +- bounds}, "
       "CalibratedLatticeEnsemble {explicit avg, explicit linear-combination+bounds, max-only and "
       "min-only linear-combination, random shared calibrators, rtl_layer, rtl+kfl+output calibration}, "
